@@ -18,19 +18,28 @@
 /* VERIF-UNIT
 {
  "name": "read_dir_block4",
- "props": ["C14"],
+ "props": [
+  "C14"
+ ],
  "level": "P",
- "tier": "wip",
+ "tier": "quick",
  "harness": "h_read_dir_block",
- "sources": ["lib/ext2fs/io_manager.c"],
+ "sources": [
+  "lib/ext2fs/io_manager.c"
+ ],
  "unwind": 1,
  "unwind_reason": "loop-free",
- "functions": ["lib/ext2fs/dirblock.c:ext2fs_read_dir_block4", "lib/ext2fs/dirblock.c:ext2fs_read_dir_block3", "lib/ext2fs/dirblock.c:ext2fs_read_dir_block2", "lib/ext2fs/dirblock.c:ext2fs_read_dir_block"],
+ "functions": [
+  "lib/ext2fs/dirblock.c:ext2fs_read_dir_block4",
+  "lib/ext2fs/dirblock.c:ext2fs_read_dir_block3",
+  "lib/ext2fs/dirblock.c:ext2fs_read_dir_block2",
+  "lib/ext2fs/dirblock.c:ext2fs_read_dir_block"
+ ],
  "assumes": [
-   "little-endian host",
-   "ext2fs_dir_block_csum_verify (csum.c) is a monitor stub answering IN.c.cv_ok; its definition is proved in proofs/csum",
-   "io manager methods are monitor stubs (read may fail with an arbitrary non-zero code); device content arbitrary (the 1024-byte buffer is fresh arbitrary memory; the functions under contract never touch its bytes themselves)",
-   "fs->flags arbitrary"
+  "little-endian host",
+  "ext2fs_dir_block_csum_verify (csum.c) is a monitor stub answering IN.c.cv_ok; its definition is proved in proofs/csum",
+  "io manager methods are monitor stubs (read may fail with an arbitrary non-zero code); device content arbitrary (the 1024-byte buffer is fresh arbitrary memory; the functions under contract never touch its bytes themselves)",
+  "fs->flags arbitrary"
  ],
  "native": false
 }
@@ -38,19 +47,28 @@
 /* VERIF-UNIT
 {
  "name": "write_dir_block4",
- "props": ["C14"],
+ "props": [
+  "C14"
+ ],
  "level": "P",
- "tier": "wip",
+ "tier": "quick",
  "harness": "h_write_dir_block",
- "sources": ["lib/ext2fs/io_manager.c"],
+ "sources": [
+  "lib/ext2fs/io_manager.c"
+ ],
  "unwind": 1,
  "unwind_reason": "loop-free",
- "functions": ["lib/ext2fs/dirblock.c:ext2fs_write_dir_block4", "lib/ext2fs/dirblock.c:ext2fs_write_dir_block3", "lib/ext2fs/dirblock.c:ext2fs_write_dir_block2", "lib/ext2fs/dirblock.c:ext2fs_write_dir_block"],
+ "functions": [
+  "lib/ext2fs/dirblock.c:ext2fs_write_dir_block4",
+  "lib/ext2fs/dirblock.c:ext2fs_write_dir_block3",
+  "lib/ext2fs/dirblock.c:ext2fs_write_dir_block2",
+  "lib/ext2fs/dirblock.c:ext2fs_write_dir_block"
+ ],
  "assumes": [
-   "little-endian host",
-   "ext2fs_dir_block_csum_set (csum.c) is a monitor stub that may fail with an arbitrary non-zero code; its definition is proved in proofs/csum",
-   "io manager methods are monitor stubs (write may fail with an arbitrary non-zero code); 1024-byte buffer with arbitrary content",
-   "fs->flags arbitrary"
+  "little-endian host",
+  "ext2fs_dir_block_csum_set (csum.c) is a monitor stub that may fail with an arbitrary non-zero code; its definition is proved in proofs/csum",
+  "io manager methods are monitor stubs (write may fail with an arbitrary non-zero code); 1024-byte buffer with arbitrary content",
+  "fs->flags arbitrary"
  ],
  "native": false
 }
